@@ -22,6 +22,7 @@ type Site struct {
 	Func  string
 	Entry bool // first statement of a function body
 	Store bool // statement stores through a package-level variable, receiver or parameter (static guess)
+	Sync  bool // statement calls into sync or sync/atomic (lock, unlock, atomic op, sync.Map, Once, Pool)
 }
 
 const (
@@ -62,6 +63,7 @@ type OpCtx struct {
 	Limit      int   // forced switch after this many steps (0: none)
 	RecStores  bool  // record offsets of store-flagged sites
 	StoreOffs  []int // offsets (in steps) at which store-flagged sites ran
+	SyncOffs   []int // offsets at which sync-flagged sites ran
 	Sites      []int // if RecSites: site sequence (bounded)
 	RecSites   bool
 }
@@ -395,9 +397,12 @@ func Yield(site int) {
 		return
 	}
 	op.Steps++
-	if op.RecStores && sites[site].Store {
-		if len(op.StoreOffs) < 256 {
+	if op.RecStores {
+		if sites[site].Store && len(op.StoreOffs) < 256 {
 			op.StoreOffs = append(op.StoreOffs, op.Steps)
+		}
+		if sites[site].Sync && len(op.SyncOffs) < 256 {
+			op.SyncOffs = append(op.SyncOffs, op.Steps)
 		}
 	}
 	if op.RecSites && len(op.Sites) < 4096 {
